@@ -49,19 +49,18 @@ theorem interM_eq [TransCmp ord] (hk : ∀ x, key x = some (k x)) (hc : ∀ p q,
     (a b : List α) (ha : SSorted k ord a) (hb : SSorted k ord b) :
     interM key cmp a b = some (interSpec k ord a b) := by
   fun_induction interM key cmp a b with
-  | case1 => rfl
-  | case2 x as => simp [hk, interSpec]
-  | case3 y bs => simp [hk, interSpec]
-  | case4 x as y bs kx ky hx hy hcmp =>
+  | case1 b => simp [interSpec]
+  | case2 x as => simp [interSpec]
+  | case3 x as y bs kx ky hx hy hcmp =>
     rw [hc] at hcmp; simp at hcmp
-  | case5 x as y bs kx ky hx hy hcmp ih =>
+  | case4 x as y bs kx ky hx hy hcmp ih =>
     rw [hk] at hx hy; rw [hc] at hcmp
     cases hx; cases hy; simp only [Option.some.injEq] at hcmp
     rw [ih ha.tail hb]
     have := any_keq_false_of_lt (lt_all_of_lt_head hb hcmp)
     simp only [interSpec, List.filter_cons, this]
     simp
-  | case6 x as y bs kx ky hx hy hcmp ih =>
+  | case5 x as y bs kx ky hx hy hcmp ih =>
     rw [hk] at hx hy; rw [hc] at hcmp
     cases hx; cases hy; simp only [Option.some.injEq] at hcmp
     rw [ih ha hb.tail]
@@ -72,7 +71,7 @@ theorem interM_eq [TransCmp ord] (hk : ∀ x, key x = some (k x)) (hc : ∀ p q,
     intro z hz
     have hz' : ord (k y) (k z) = .lt := lt_all_of_lt_head ha hyx z hz
     simp [List.any_cons, keq_false_of_gt hz']
-  | case7 x as y bs kx ky hx hy hcmp ih =>
+  | case6 x as y bs kx ky hx hy hcmp ih =>
     rw [hk] at hx hy; rw [hc] at hcmp
     cases hx; cases hy; simp only [Option.some.injEq] at hcmp
     rw [ih ha.tail hb.tail]
@@ -85,28 +84,28 @@ theorem interM_eq [TransCmp ord] (hk : ∀ x, key x = some (k x)) (hc : ∀ p q,
     intro z hz
     have hz' : ord (k y) (k z) = .lt := TransCmp.lt_of_eq_of_lt hyx (ha.head_lt z hz)
     simp [keq_false_of_gt hz']
-  | case8 x as y bs hnone =>
+  | case7 x as y bs hnone =>
     exfalso
     exact hnone (k x) (k y) (hk x) (hk y)
+
+theorem diffSpec_nil (b : List α) : diffSpec k ord b [] = b := by
+  simp [diffSpec]
 
 theorem diffM_eq [TransCmp ord] (hk : ∀ x, key x = some (k x)) (hc : ∀ p q, cmp p q = some (ord p q))
     (a b : List α) (ha : SSorted k ord a) (hb : SSorted k ord b) :
     diffM key cmp a b = some (diffSpec k ord a b) := by
   fun_induction diffM key cmp a b with
-  | case1 => rfl
-  | case2 x as hx => rw [hk] at hx; cases hx
-  | case3 x as kx hx ih =>
-    rw [ih ha.tail hb]; simp [diffSpec]
-  | case4 y bs => simp [hk, diffSpec]
-  | case5 x as y bs kx ky hy hx hcmp => rw [hc] at hcmp; simp at hcmp
-  | case6 x as y bs kx ky hy hx hcmp ih =>
+  | case1 b => simp [diffSpec]
+  | case2 x as => rw [diffSpec_nil]
+  | case3 x as y bs kx ky hy hx hcmp => rw [hc] at hcmp; simp at hcmp
+  | case4 x as y bs kx ky hy hx hcmp ih =>
     rw [hk] at hx hy; rw [hc] at hcmp
     cases hx; cases hy; simp only [Option.some.injEq] at hcmp
     rw [ih ha.tail hb]
     have := any_keq_false_of_lt (lt_all_of_lt_head hb hcmp)
     simp only [diffSpec, List.filter_cons, this]
     simp
-  | case7 x as y bs kx ky hy hx hcmp ih =>
+  | case5 x as y bs kx ky hy hx hcmp ih =>
     rw [hk] at hx hy; rw [hc] at hcmp
     cases hx; cases hy; simp only [Option.some.injEq] at hcmp
     rw [ih ha hb.tail]
@@ -117,7 +116,7 @@ theorem diffM_eq [TransCmp ord] (hk : ∀ x, key x = some (k x)) (hc : ∀ p q, 
     intro z hz
     have hz' : ord (k y) (k z) = .lt := lt_all_of_lt_head ha hyx z hz
     simp [List.any_cons, keq_false_of_gt hz']
-  | case8 x as y bs kx ky hy hx hcmp ih =>
+  | case6 x as y bs kx ky hy hx hcmp ih =>
     rw [hk] at hx hy; rw [hc] at hcmp
     cases hx; cases hy; simp only [Option.some.injEq] at hcmp
     rw [ih ha.tail hb.tail]
@@ -130,15 +129,12 @@ theorem diffM_eq [TransCmp ord] (hk : ∀ x, key x = some (k x)) (hc : ∀ p q, 
     intro z hz
     have hz' : ord (k y) (k z) = .lt := TransCmp.lt_of_eq_of_lt hyx (ha.head_lt z hz)
     simp [keq_false_of_gt hz']
-  | case9 x as y bs hnone =>
+  | case7 x as y bs hnone =>
     exfalso
     exact hnone (k x) (k y) (hk x) (hk y)
 
 theorem mem_diffSpec {a b : List α} {z : α} (h : z ∈ diffSpec k ord b a) : z ∈ b :=
   (List.mem_filter.1 h).1
-
-theorem diffSpec_nil (b : List α) : diffSpec k ord b [] = b := by
-  simp [diffSpec]
 
 /-- the union merge returns a set whose members are exactly those of `a` and those of `b` whose key
     does not occur in `a` -/
@@ -147,27 +143,12 @@ theorem unionM_char [TransCmp ord] (hk : ∀ x, key x = some (k x)) (hc : ∀ p 
     ∃ r, unionM key cmp a b = some r ∧ SSorted k ord r ∧
       ∀ z, z ∈ r ↔ (z ∈ a ∨ z ∈ diffSpec k ord b a) := by
   fun_induction unionM key cmp a b with
-  | case1 => exact ⟨[], rfl, List.Pairwise.nil, by simp [diffSpec]⟩
-  | case2 x as hx => rw [hk] at hx; cases hx
-  | case3 x as kx hx ih =>
-    obtain ⟨r, hr, hs, hm⟩ := ih ha.tail hb
-    refine ⟨x :: r, by simp [hr], ?_, ?_⟩
-    · refine List.pairwise_cons.2 ⟨fun z hz => ?_, hs⟩
-      rcases (hm z).1 hz with h | h
-      · exact ha.head_lt z h
-      · simp [diffSpec] at h
-    · intro z; simp [hm z, diffSpec, or_assoc]
-  | case4 y bs hy => rw [hk] at hy; cases hy
-  | case5 y bs ky hy ih =>
-    obtain ⟨r, hr, hs, hm⟩ := ih ha hb.tail
-    refine ⟨y :: r, by simp [hr], ?_, ?_⟩
-    · refine List.pairwise_cons.2 ⟨fun z hz => ?_, hs⟩
-      rcases (hm z).1 hz with h | h
-      · simp at h
-      · exact hb.head_lt z (mem_diffSpec h)
-    · intro z; simp [hm z, diffSpec_nil]
-  | case6 x as y bs kx ky hy hx hcmp => rw [hc] at hcmp; simp at hcmp
-  | case7 x as y bs kx ky hy hx hcmp ih =>
+  | case1 b => exact ⟨b, rfl, hb, by simp [diffSpec]⟩
+  | case2 x as =>
+    refine ⟨x :: as, rfl, ha, ?_⟩
+    intro z; simp [diffSpec]
+  | case3 x as y bs kx ky hy hx hcmp => rw [hc] at hcmp; simp at hcmp
+  | case4 x as y bs kx ky hy hx hcmp ih =>
     rw [hk] at hx hy; rw [hc] at hcmp
     cases hx; cases hy; simp only [Option.some.injEq] at hcmp
     obtain ⟨r, hr, hs, hm⟩ := ih ha.tail hb
@@ -183,7 +164,7 @@ theorem unionM_char [TransCmp ord] (hk : ∀ x, key x = some (k x)) (hc : ∀ p 
       · exact ha.head_lt z h
       · exact hlt z (mem_diffSpec h)
     · intro z; rw [hd]; simp [hm z, or_assoc]
-  | case8 x as y bs kx ky hy hx hcmp ih =>
+  | case5 x as y bs kx ky hy hx hcmp ih =>
     rw [hk] at hx hy; rw [hc] at hcmp
     cases hx; cases hy; simp only [Option.some.injEq] at hcmp
     obtain ⟨r, hr, hs, hm⟩ := ih ha hb.tail
@@ -209,7 +190,7 @@ theorem unionM_char [TransCmp ord] (hk : ∀ x, key x = some (k x)) (hc : ∀ p 
         · exact Or.inr (Or.inl h)
         · exact Or.inl h
         · exact Or.inr (Or.inr h)
-  | case9 x as y bs kx ky hy hx hcmp ih =>
+  | case6 x as y bs kx ky hy hx hcmp ih =>
     rw [hk] at hx hy; rw [hc] at hcmp
     cases hx; cases hy; simp only [Option.some.injEq] at hcmp
     obtain ⟨r, hr, hs, hm⟩ := ih ha.tail hb.tail
@@ -228,7 +209,7 @@ theorem unionM_char [TransCmp ord] (hk : ∀ x, key x = some (k x)) (hc : ∀ p 
       · exact ha.head_lt z h
       · exact hltb z (mem_diffSpec h)
     · intro z; rw [hd]; simp [hm z, or_assoc]
-  | case10 x as y bs hnone =>
+  | case7 x as y bs hnone =>
     exfalso
     exact hnone (k x) (k y) (hk x) (hk y)
 
@@ -307,6 +288,11 @@ theorem setMemberM_eq [TransCmp ord] (hk : ∀ x, key x = some (k x)) (hc : ∀ 
     (x : α) (arr : List α) (hs : SSorted k ord arr) :
     setMemberM key cmp x arr = some (setMemberSpec k ord x arr) := by
   unfold setMemberM setMemberSpec
+  by_cases hemp : arr.isEmpty = true
+  · rw [if_pos hemp]
+    have : arr = [] := List.isEmpty_iff.1 hemp
+    subst this; rfl
+  rw [if_neg hemp]
   simp only [hk]
   rw [bsearch_eq hk hc arr hs (k x) (arr.length + 1) 0 arr.length (by omega) (by omega) (Nat.le_refl _)
     (by intro i e hi; omega)
